@@ -277,6 +277,12 @@ type omap struct {
 	vals  []value
 	alive []bool // tombstones keep iteration stable under delete during range
 	n     int
+	// sidx indexes the live entries by key while every key ever inserted was a
+	// concrete Go string (the common case: node ids, paths); it turns the linear
+	// scan of large concrete maps (65k-entry version vectors) into a lookup.
+	// nil once a symbolic or non-string key has been inserted.
+	sidx    map[string]int
+	noIndex bool
 }
 
 func newOmap(keyT types.Type) *omap { return &omap{keyT: keyT} }
@@ -291,6 +297,12 @@ func (o *omap) len() int {
 // find returns the index of key or -1. Equality may fork the path.
 func (m *Machine) omapFind(o *omap, key value) int {
 	if o == nil {
+		return -1
+	}
+	if ks, ok := key.(string); ok && !o.noIndex && o.sidx != nil {
+		if i, hit := o.sidx[ks]; hit && o.alive[i] {
+			return i
+		}
 		return -1
 	}
 	for i := range o.keys {
@@ -325,6 +337,18 @@ func (m *Machine) omapSet(o *omap, key, v value) {
 	o.vals = append(o.vals, v)
 	o.alive = append(o.alive, true)
 	o.n++
+	if ks, ok := key.(string); ok && !o.noIndex {
+		if o.sidx == nil {
+			if len(o.keys) != 1 {
+				o.noIndex = true // entries were added behind the index's back
+				return
+			}
+			o.sidx = map[string]int{}
+		}
+		o.sidx[ks] = len(o.keys) - 1
+	} else {
+		o.noIndex, o.sidx = true, nil
+	}
 }
 
 func (m *Machine) omapDelete(o *omap, key value) {
@@ -348,7 +372,27 @@ func (o *omap) clone() *omap {
 			c.n++
 		}
 	}
+	c.reindex()
 	return c
+}
+
+// reindex rebuilds the concrete-string index after keys were appended directly.
+func (o *omap) reindex() {
+	o.sidx, o.noIndex = nil, false
+	idx := make(map[string]int, len(o.keys))
+	for i, k := range o.keys {
+		ks, ok := k.(string)
+		if !ok {
+			o.noIndex = true
+			return
+		}
+		if o.alive[i] {
+			idx[ks] = i
+		}
+	}
+	if len(o.keys) > 0 {
+		o.sidx = idx
+	}
 }
 
 type omapIter struct {
